@@ -3,7 +3,7 @@ ENTRY = {
     "families": [fam("C39", 600, 6000, opts={"quick": {"gens": 10, "max_gen_k": 300}, "thorough": {"gens": 60, "max_gen_k": 5000}})],
     "gen_items": [],
     "rule": "cases: the first `gens` cases generate all eight tables with TpchGenerator::with_seed(sf, seed) (quick: 10 generations, sf <= 0.003; thorough: 60, sf <= 0.05) "
-            "twice in sequence, once on each of 8 concurrent threads, and every 4th case also through generate_to_parquet in a child process + read-back; all runs are "
+            "as (sf,seedA), (sf,seedB), (sf,seedA) in one process and on 8 concurrent threads interleaving both seeds — each compared byte for byte with what a FRESH child process generates for that (sf,seed) alone (history independence, tag hist), seedA/seedB required to differ in every table with RNG-dependent columns (>= 100 rows; nation/region have none) — and every 4th case also through generate_to_parquet in a child process + read-back; all runs are "
             "compared byte for byte (Arrow IPC encoding of every table; Parquet read-back column by column) and every key column is shipped to the driver. "
             "The remaining cases sweep TpchRowCounts::for_scale_factor over [0.001, 0.05]: multiples of 0.001, k/100000, dyadic k/65536, and a list of named values. "
             "Non-trivial = a generation with >= 100 lineitems, or a count case with >= 1 supplier; distinct by sha256 of the canonical case",
@@ -18,7 +18,7 @@ ENTRY = {
         "scale factors in [0.001, 0.05] (all table sizes positive); smaller scale factors make `% 0` panic and are outside the property",
         "primary-key uniqueness of partsupp (ps_partkey, ps_suppkey) is not part of the stated property and is not checked: the generator repeats each pair",
     ],
-    "min_tags": {"gen": 1, "counts": 1, "parquet": 1, "exact-ratios": 1, "truncated-ratios": 1, "sf-breaks-partsupp-fk": 1, "sf-keeps-partsupp-fk": 1},
+    "min_tags": {"hist": 1, "gen": 1, "counts": 1, "parquet": 1, "exact-ratios": 1, "truncated-ratios": 1, "sf-breaks-partsupp-fk": 1, "sf-keeps-partsupp-fk": 1},
     "manifest": {
         "category": "proof",
         "text": "Lean theorems over the key columns of the TPC-H generator as pure functions of row index and ARBITRARY RNG streams: primary keys are exactly 1..count; "
